@@ -117,6 +117,14 @@ let () =
                  | HwOk (p, l, e') -> m := Printf.sprintf "ok %d %d %d %d" (iz n) (iz p) (iz l) (iz e')
                  | HwFail -> m := Printf.sprintf "fail %d %d %d" (iz pos) (iz e.e_len) (iz h.h_eof)
                  | HwConvert -> ())
+            | None when iz pos = 0 && iz n > 0 ->
+                (* new element: a descriptor slot, then HPgetdiskblock(n) from Hwrite's Hsetlength *)
+                (match alloc_dd h with
+                 | None -> ()
+                 | Some h1 ->
+                     (match m_getdiskblock h1.h_eof n with
+                      | (Some _, e) -> m := Printf.sprintf "ok %d %d %d %d" (iz n) (iz n) (iz n) (iz e)
+                      | (None, e) -> m := Printf.sprintf "fail 0 -1 %d" (iz e)))
             | _ -> ())
        | Some (OVgAdd (slot, _, _, n)) ->
            (match get_vg v slot with
